@@ -33,6 +33,21 @@ def gen(rng, tier):
     sp_, kp = _shape(rng, a, b, ['full', 'col', 'row', 'vec', 'scalar', 'lead', 'leadrow']) \
         if has_param else ((), 'none')
     sy = np.broadcast_shapes(sx, sp_, (a, b) if rng.random() < 0.7 else sx)
+    mutual = False
+    if rng.random() < 0.25:
+        # the two sides of the comparison broadcast against EACH OTHER: the grid is larger than
+        # both (x a row / vector, y a column, or the other way round)
+        mutual = True
+        if rng.random() < 0.5:
+            sx, kx = [((b,), 'vec'), ((1, b), 'row')][int(rng.integers(2))]
+            sy = (a, 1)
+        else:
+            sx, kx = (a, 1), 'col'
+            sy = [(b,), (1, b)][int(rng.integers(2))]
+        if rng.random() < 0.4:
+            atom, has_param, sp_, kp = 'square', False, (), 'none'
+        if has_param and kp not in ('scalar',):
+            sp_, kp = sx, 'as_x'
     if atom in ('log', 'plog'):
         X0 = np.round(rng.uniform(0.3, 3.0, sx), 2)
     elif atom == 'power':
@@ -41,7 +56,7 @@ def gen(rng, tier):
     else:
         X0 = np.round(rng.uniform(-1.5, 1.5, sx), 2)
     spec = {'kind': 'bcast', 'front': 'ro' if rng.random() < 0.6 else 'dro', 'atom': atom,
-            'sx': list(sx), 'sy': list(sy), 'kx': kx, 'kp': kp, 'X0': X0.tolist(),
+            'sx': list(sx), 'sy': list(sy), 'kx': kx, 'kp': kp, 'X0': X0.tolist(), 'mutual': mutual,
             'mult': float(np.round(rng.uniform(0.5, 2.5), 2)) if rng.random() < 0.6 else 1.0,
             'k': float(np.round(rng.uniform(-1, 1), 2)) if rng.random() < 0.6 else 0.0,
             'inner': [float(np.round(rng.uniform(0.5, 2.0), 2)), float(np.round(rng.uniform(0, 1), 2))]
@@ -84,7 +99,22 @@ def closed_form(spec, X0=None):
         v = u ** 2
     else:
         v = np.abs(u)
-    return np.broadcast_to(spec['mult'] * v + spec['k'], tuple(spec['sy']))
+    g = spec['mult'] * v + spec['k']
+    sy = tuple(spec['sy'])
+    if not spec.get('mutual'):
+        return np.broadcast_to(g, sy)
+    # y_i has to dominate (be dominated by) every grid entry it is broadcast to
+    full = np.broadcast_shapes(g.shape, sy)
+    G = np.broadcast_to(g, full)
+    red = np.max if spec['atom'] not in CONCAVE else np.min
+    lead = len(full) - len(sy)
+    out = G
+    if lead:
+        out = red(out, axis=tuple(range(lead)))
+    for ax, d in enumerate(sy):
+        if d == 1 and out.shape[ax] != 1:
+            out = red(out, axis=ax, keepdims=True)
+    return out.reshape(sy)
 
 
 def build(spec):
@@ -135,7 +165,7 @@ def run(spec, ctx, exact_tol=None):
     """Returns a result dict (status held / violation / skip)."""
     feats = {'class': 'bcast', 'front': spec['front'], 'atom': spec['atom'], 'x': spec['kx'],
              'param': spec['kp'], 'y': 'x'.join(str(d) for d in spec['sy']),
-             'affine_inside': spec['inner'] != [1.0, 0.0]}
+             'affine_inside': spec['inner'] != [1.0, 0.0], 'mutual': bool(spec.get('mutual'))}
     sig = '|'.join('%s=%s' % (k, feats[k]) for k in sorted(feats))
     try:
         m, x, y = build(spec)
@@ -168,7 +198,7 @@ def run(spec, ctx, exact_tol=None):
     scale = 1 + np.abs(want)
     detail = []
     # C06 flavour: the constraint as written, evaluated at the returned point
-    rhs = closed_form(spec, xv)
+    rhs = closed_form(spec, xv)       # (for mutual broadcasting: the binding grid entry per y)
     gap = (rhs - yv) if spec['atom'] not in CONCAVE else (yv - rhs)
     if np.max(gap / scale) > 10 * tol:
         i = np.unravel_index(np.argmax(gap / scale), gap.shape)
